@@ -77,11 +77,11 @@ func init() {
 			fv.used("lo.Contains(s, x) = exists i. s[i] == x")
 			return true
 		},
-		"errors.New":  modelNewError,
-		"fmt.Errorf":  modelNewError,
-		"fmt.Sprintf": modelSprintf,
-		"fmt.Sprint":  modelFreshString,
-		"strings.Join": modelFreshString,
+		"errors.New":              modelNewError,
+		"fmt.Errorf":              modelNewError,
+		"fmt.Sprintf":             modelSprintf,
+		"fmt.Sprint":              modelFreshString,
+		"strings.Join":            modelFreshString,
 		"sync.(*RWMutex).RLock":   modelLock(0, 1, "RLock"),
 		"sync.(*RWMutex).RUnlock": modelLock(1, 0, "RUnlock"),
 		"sync.(*RWMutex).Lock":    modelLock(0, 2, "Lock"),
